@@ -39,6 +39,8 @@ GroupOK(e) ==
 
 \* analytic functions: for every row the logged value must equal the definition under SOME valid order of its
 \* partition; the harness logs the order csvq's ROW_NUMBER reveals (ord, per partition) and TLC checks it is valid
+RECURSIVE JoinText(_, _)
+JoinText(cs, sep) == IF Len(cs) = 1 THEN cs[1].t ELSE cs[1].t \o sep \o JoinText(Tail(cs), sep)
 AnalyticOK(e) ==
   \A x \in 1..Len(e.parts) :
     LET ord == e.parts[x].ord  n == Len(ord) IN
@@ -58,6 +60,11 @@ AnalyticOK(e) ==
                                          got.t = (IF qs = {} THEN "NULL" ELSE TextOf(e.rows[ord[CHOOSE q \in qs : \A q2 \in qs : q2 <= q]][e.col]))
            [] e.fn = "lead" /\ e.ign  -> LET qs == {q \in (p + 1)..n : ~e.rows[ord[q]][e.col].n} IN
                                          got.t = (IF qs = {} THEN "NULL" ELSE TextOf(e.rows[ord[CHOOSE q \in qs : \A q2 \in qs : q2 >= q]][e.col]))
+           \* LISTAGG(v, sep) OVER (PARTITION .. ORDER ..): the non-NULL values of the partition in its order, joined by the
+           \* separator; two calls with different separators are two columns
+           [] e.fn = "listagg"      -> LET cs == SelectSeq([q \in 1..n |-> e.rows[ord[q]][e.col]], LAMBDA c : ~c.n) IN
+                                       /\ got.t = (IF cs = <<>> THEN "NULL" ELSE JoinText(cs, "a"))
+                                       /\ got.t2 = (IF cs = <<>> THEN "NULL" ELSE JoinText(cs, "A"))
            [] e.fn \in {"first_value", "last_value", "nth_value", "count", "sum", "min", "max"} ->
                 LET all == FrameCells(e.rows, ord, p, e.lo, e.hi, e.col)
                     \* IGNORE NULLS: the function sees the frame without its NULL values
